@@ -114,12 +114,34 @@ impl Idx {
 pub const DB_NAME: &str = "vdb";
 pub const COLL_NAME: &str = "docs";
 
+thread_local! {
+    /// Storage configuration variant of the databases this thread creates / opens:
+    /// 0 = no compression, default cache; 1 = zstd level 3, cache disabled;
+    /// 2 = zstd level 1, a byte-bounded cache so small that entries are evicted all the time.
+    static CONFIG_VARIANT: std::cell::Cell<u8> = const { std::cell::Cell::new(0) };
+}
+
+pub fn set_config_variant(v: u8) {
+    CONFIG_VARIANT.with(|c| c.set(v));
+}
+
+pub fn config_variant() -> u8 {
+    CONFIG_VARIANT.with(|c| c.get())
+}
+
 pub fn db_config() -> DBConfig {
+    let (compress_level, cache_max_capacity, cache_max_bytes) = match config_variant() {
+        0 => (0, StorageConfig::default().cache_max_capacity, None),
+        1 => (3, 0, None),
+        _ => (1, StorageConfig::default().cache_max_capacity, Some(300)),
+    };
     DBConfig {
         name: DB_NAME.to_string(),
         description: "verification fixture".to_string(),
         storage: StorageConfig {
-            compress_level: 0,
+            compress_level,
+            cache_max_capacity,
+            cache_max_bytes,
             // tiny index buckets: a handful of documents already spans several
             // buckets, so splits, migrations and compaction have real work
             bucket_overload_size: 32,
